@@ -1,6 +1,7 @@
+\* the transcription of /repo: all invariants, every transition exported for guided replay
 SPECIFICATION Spec
-CONSTANTS Threads <- T  Items <- W  Joins <- J  Scenarios <- Scn  FirstCloserOnly = FALSE
-INVARIANTS JoinOnlyAfterAllDone JoinOncePerStart CountExact AdmittedIffBeforeClose TerminalJoined
+CONSTANTS Threads <- T  Items <- W  Joins <- J  Scenarios <- Scn  FirstCloserOnly = TRUE
+INVARIANTS JoinOnlyAfterAllDone JoinOncePerStart CountExact AdmittedIffBeforeClose TerminalJoined NoTouchAfterDestruction
 VIEW View
 ACTION_CONSTRAINT EdgeLog
 CHECK_DEADLOCK TRUE
